@@ -312,3 +312,7 @@ def run(tier, V):
                    'a file changed on disk behind the editor makes that buffer\'s flag unpredictable from texts; its flag is then not compared',
                    'eviction with more than 16 paths is covered by C02']
     return cov, assumptions
+
+
+def REPLAY(w):
+    return run_history((build('asan'), w['index']))[0]
